@@ -6,7 +6,7 @@ WT=/tmp/sv_wt
 OUT=/verif/work/seeded_verify.tsv
 cd /repo && git worktree remove --force $WT 2>/dev/null; git worktree add --detach $WT HEAD >/dev/null 2>&1
 : > $OUT
-for d in /verif/seeded_incoming/C*/; do
+for d in ${SEEDED_DIRS:-/verif/seeded_incoming/C*/}; do
   c=$(basename $d)
   for n in 1 2 3 4; do
     p=$d/patch$n.diff; [ -f $d/patch$n.rebased.diff ] && p=$d/patch$n.rebased.diff
